@@ -12,6 +12,12 @@ test, except ``xarray.Dataset.equals`` of the third-party library which the stat
   file/folder path: ``load_result`` gives equal parameters / histories / statistics / datasets, every
   path stored in ``result.yml`` / ``scheme.yml`` is relative and inside the folder, the same after the
   folder was moved and the cwd changed.
+* ``history`` Hypothesis over histories of results and result folders (JSON step lists, addressing relative to what
+  exists): save any result handle (fresh / continued run ``optimize(previous.get_scheme())`` whose initial parameters
+  carry standard errors / loaded from a folder) to a new folder or over an earlier save, load a folder (new handle),
+  continue a run, move / remove folders, change the cwd.  Every save is decided at once (references relative to and
+  inside the folder, ``load_result`` equals the saved result), every load later on, and every surviving folder once
+  more after it was loaded and archived to a new folder and everything was moved into an otherwise empty tree.
 * ``netcdf``  ``save_dataset``/``load_dataset`` bit-equal.
 * ``ascii``   time-/wavelength-explicit files: values and secondary axis to 1e-10 rel., explicit axis to
   1e-12 rel. (text round trip), both axes in the right orientation.
@@ -376,10 +382,21 @@ def result_cases(tier):
                                         "target": target,
                                         "path_kind": path_kind,
                                         "presaved": (i // 3 + rep) % 3 == 0,
+                                        # the initial parameters carry standard errors (as when they were read from the
+                                        # optimized_parameters file of an earlier run)
+                                        "init_stderr": (i + i // 8 + rep) % 3 == 0,
                                     }
                                 )
                             i += 1
     return out
+
+
+def set_standard_errors(params, seed):
+    """Give every free parameter a standard error (own rng stream: the data of the case do not change)."""
+    rng = np.random.default_rng([int(seed), 17])
+    for p in params.all():
+        if p.vary and p.expression is None:
+            p.standard_error = float(abs(p.value) * rng.uniform(0.01, 0.3) + 1e-3)
 
 
 def build_result_scheme(case):
@@ -430,6 +447,8 @@ def build_result_scheme(case):
         )
         dims = ("time", "spectral")
         rates = [0.55, 0.2]
+    if case.get("init_stderr"):
+        set_standard_errors(params, case["seed"])
     for j, lbl in enumerate(labels):
         nt = 14 + 3 * j
         t = np.linspace(-0.5, 4.5, nt)
@@ -441,31 +460,31 @@ def build_result_scheme(case):
     return Scheme(model, params, data, maximum_number_function_evaluations=case["nfev"], clp_link_tolerance=0.25 if case["link"] else 0.0)
 
 
-def compare_result(orig, expect_data, loaded, suffix=""):
+def compare_result(orig, expect_data, loaded, suffix="", prefix="result"):
     """orig: result that was saved; expect_data: {label: dataset expected on disk}; loaded: load_result(...)."""
-    _compare_result(orig, expect_data, loaded, suffix, RTOL_TEXT, strict=False)
-    _compare_result(orig, expect_data, loaded, suffix, RTOL_TEXT_STRICT, strict=True)
+    _compare_result(orig, expect_data, loaded, suffix, RTOL_TEXT, False, prefix)
+    _compare_result(orig, expect_data, loaded, suffix, RTOL_TEXT_STRICT, True, prefix)
 
 
-def _compare_result(orig, expect_data, loaded, suffix, rtol, strict):
+def _compare_result(orig, expect_data, loaded, suffix, rtol, strict, prefix):
     def cl(name):
-        return ("result.float_precision" if strict else name) + suffix
+        return prefix + "." + ("float_precision" if strict else name) + suffix
 
     for name in ("initial_parameters", "optimized_parameters"):
         d = parameters_diff(getattr(orig, name), getattr(loaded, name), rtol)
-        check(d is None, cl("result.parameters"), lambda: f"{name}: {d}")
+        check(d is None, cl("parameters"), lambda: f"{name}: {d}")
     h0, h1 = orig.parameter_history, loaded.parameter_history
     check(
         list(map(str, h0.parameter_labels)) == list(map(str, h1.parameter_labels)) and h0.number_of_records == h1.number_of_records,
-        cl("result.parameter_history"),
+        cl("parameter_history"),
         lambda: f"parameter_history: labels {list(h0.parameter_labels)} x {h0.number_of_records} records vs {list(h1.parameter_labels)} x {h1.number_of_records}",
     )
     a0, a1 = np.array(h0.parameters, dtype=float), np.array(h1.parameters, dtype=float)
-    check(arrays_close(a0, a1, rtol), cl("result.parameter_history"), lambda: "parameter_history: " + _first_array_diff(a0, a1, rtol, list(map(str, h0.parameter_labels))))
+    check(arrays_close(a0, a1, rtol), cl("parameter_history"), lambda: "parameter_history: " + _first_array_diff(a0, a1, rtol, list(map(str, h0.parameter_labels))))
     o0, o1 = orig.optimization_history.data, loaded.optimization_history.data
     check(
         list(o0.columns) == list(o1.columns) and o0.index.name == o1.index.name and list(o0.index) == list(o1.index) and arrays_close(o0.values, o1.values, rtol),
-        cl("result.optimization_history"),
+        cl("optimization_history"),
         lambda: f"{o0!r}\nvs\n{o1!r}",
     )
     for name in scalar_fields(orig):
@@ -475,20 +494,20 @@ def _compare_result(orig, expect_data, loaded, suffix, rtol, strict):
         else:
             d = first_diff(a, b, name)
             ok = d is None
-        check(ok, "result.statistics" + suffix, lambda: f"persisted field differs after load_result: {d}")
+        check(ok, prefix + ".statistics" + suffix, lambda: f"persisted field differs after load_result: {d}")
     for name in scalar_fields(orig.scheme):
         d = first_diff(getattr(orig.scheme, name), getattr(loaded.scheme, name), name)
-        check(d is None, "result.scheme_options" + suffix, lambda: f"scheme field differs after load_result: {d}")
+        check(d is None, prefix + ".scheme_options" + suffix, lambda: f"scheme field differs after load_result: {d}")
     d = first_diff(orig.scheme.model.as_dict(), loaded.scheme.model.as_dict())
-    check(d is None, "result.scheme_model" + suffix, lambda: f"model differs at {d}")
+    check(d is None, prefix + ".scheme_model" + suffix, lambda: f"model differs at {d}")
     d = parameters_diff(orig.scheme.parameters, loaded.scheme.parameters, rtol)
-    check(d is None, cl("result.parameters"), lambda: f"scheme.parameters: {d}")
+    check(d is None, cl("parameters"), lambda: f"scheme.parameters: {d}")
     if strict:
         return
-    check(sorted(loaded.data) == sorted(expect_data), "result.datasets" + suffix, lambda: f"labels {sorted(loaded.data)} vs {sorted(expect_data)}")
+    check(sorted(loaded.data) == sorted(expect_data), prefix + ".datasets" + suffix, lambda: f"labels {sorted(loaded.data)} vs {sorted(expect_data)}")
     for lbl, exp in expect_data.items():
         d = dataset_diff(exp, loaded.data[lbl], bitwise=True)
-        check(d is None, "result.datasets" + suffix, lambda: f"dataset {lbl}: {d}")
+        check(d is None, prefix + ".datasets" + suffix, lambda: f"dataset {lbl}: {d}")
 
 
 def prop_result(case):
@@ -550,8 +569,227 @@ def prop_result(case):
         n_hist = len(result.optimization_history.data)
     tags = [case["kind"], f"datasets-{case['n_datasets']}", f"weights-{case['weights']}", f"filter-{'none' if flt is None else '+'.join(flt)}",
             f"params-{case['options']['parameter_format']}", f"report-{case['options']['report']}", f"target-{case['target']}-{case['path_kind']}",
-            "presaved" if case["presaved"] else "fresh", "history-empty" if n_hist == 0 else "history-nonempty"]
+            "presaved" if case["presaved"] else "fresh", "init-stderr" if case.get("init_stderr") else "init-no-stderr", "history-empty" if n_hist == 0 else "history-nonempty"]
     return {"nontrivial": case["n_datasets"] >= 2 and case["weights"] != "none", "tags": tags}
+
+
+# ------------------------------------------------------------------------------------------------
+# sub-check 2b: histories of results and result folders
+#
+# The statement is about *every* result and every target folder, so also about a result that was itself loaded from
+# a folder (and is saved to another one), a result of a continued run (``optimize(previous.get_scheme())``: the initial
+# parameters carry standard errors), a result that is saved several times (to several folders, or over an earlier
+# save), and folders that are moved / whose sibling folders are removed between the calls.  Every save is decided at
+# once (references relative to and inside the folder, loads to an equal result) and every folder that is still alive
+# at the end of the history is decided once more after it was moved into an otherwise empty tree.
+
+HIST_FILTERS = [None, None, ["fitted_data", "residual"], ["data", "fitted_data"]]
+HIST_MAX_STEPS = 9
+# Finding D18e (unrepaired in /repo at the time of writing; proposed_fixes/D18e.diff + D18e-witness-*.json): a *loaded*
+# result that is saved with another parameter_format than the one it was loaded from gets a result.yml whose
+# ``initial_parameters`` entry still names the file of the old format (``result.initial_parameters.source_path`` is
+# never updated; the folder plugin writes ``result.scheme.parameters``, another object after loading).  Until that is
+# repaired the generator keeps the format for such saves ("keep_format"); the interpreter understands both, so the
+# witness (keep_format: false) replays.  Set to True after the repair (quiet with the proposed fix applied).
+HIST_REFORMAT_RELOADED = False
+ORIGIN_SUFFIX = {"fresh": "", "continued": "_continued", "reloaded": "_reloaded"}
+
+
+@st.composite
+def history_cases(draw):
+    base = dict(draw(st.sampled_from(RESULT_KINDS)))
+    base.update(seed=draw(st.integers(0, 10**6)), nfev=draw(st.integers(1, 3)), init_stderr=draw(st.booleans()))
+    # addressing is relative to what exists when the step runs (every step of every history applies):
+    # "h" counts handles back from the newest one, "slot" indexes the live folders (modulo their number)
+    slot, handle = st.integers(0, 3), st.integers(0, 5)
+    save = st.fixed_dictionaries(
+        {
+            "op": st.just("save"),
+            "h": handle,
+            "slot": slot,
+            "overwrite": st.sampled_from([False, False, False, True]),
+            "keep_format": st.booleans() if HIST_REFORMAT_RELOADED else st.just(True),
+            "options": st.fixed_dictionaries(
+                {"data_filter": st.sampled_from(HIST_FILTERS), "data_format": st.just("nc"), "parameter_format": st.sampled_from(["csv", "csv", "tsv"]), "report": st.booleans()}
+            ),
+            "target": st.sampled_from(["abs", "rel"]),
+            "path_kind": st.sampled_from(["file", "folder"]),
+        }
+    )
+    load = st.fixed_dictionaries({"op": st.just("load"), "slot": slot, "target": st.sampled_from(["abs", "rel"])})
+    cont = st.fixed_dictionaries({"op": st.just("continue"), "h": handle, "nfev": st.integers(1, 3)})
+    move = st.fixed_dictionaries({"op": st.just("move"), "slot": slot, "depth": st.integers(0, 2)})
+    remove = st.fixed_dictionaries({"op": st.just("remove"), "slot": slot})
+    chdir = st.fixed_dictionaries({"op": st.just("chdir"), "where": st.integers(0, 2)})
+    steps = draw(st.lists(st.one_of(save, save, save, save, load, load, load, cont, cont, move, move, remove, chdir), min_size=5, max_size=HIST_MAX_STEPS))
+    return {"base": base, "steps": steps}
+
+
+def _inside(path, folder):
+    path, folder = Path(path).resolve(), Path(folder).resolve()
+    return path == folder or folder in path.parents
+
+
+def prop_history(case):
+    from dataclasses import replace
+
+    from glotaran.io import SavingOptions
+    from glotaran.io import load_result
+    from glotaran.io import save_result
+    from glotaran.optimization.optimize import optimize
+
+    base = case["base"]
+    scheme = build_result_scheme(base)
+    tags = set()
+    with sandbox() as td:
+        td = td.resolve()
+        os.chdir(td)
+
+        def run(sch):
+            with contextlib.redirect_stdout(io.StringIO()):
+                return optimize(sch, verbose=base["verbose"], raise_exception=True)
+
+        try:
+            first = run(scheme)
+        except Exception as e:  # noqa: BLE001
+            raise Discard(f"optimisation failed: {type(e).__name__}") from e
+        handles = [{"result": first, "origin": "fresh"}]
+        slots = {}  # slot id -> {"path": absolute folder, "result": the result saved there, "data": expected datasets, "kind", "sfx"}
+        counter = 0
+
+        def as_target(folder, target, path_kind):
+            folder = Path(os.path.relpath(folder, os.getcwd())) if target == "rel" else Path(folder)
+            return (folder / "result.yml", {}) if path_kind == "file" else (folder, {"format_name": "yml"})
+
+        def leave(folder):
+            if _inside(os.getcwd(), folder):
+                os.chdir(td)
+
+        def decide(slot, when, target="abs"):
+            """The folder of the slot is self contained and loads to the result that was saved there."""
+            s = slots[slot]
+            sfx = s["sfx"] + when
+            check_paths(s["path"] / "result.yml", s["path"], "history.paths" + sfx)
+            check_paths(s["path"] / "scheme.yml", s["path"], "history.paths" + sfx)
+            tgt, kwargs = as_target(s["path"], target, s["kind"])
+            with expect_ok("history.load" + sfx):
+                loaded = load_result(tgt, **kwargs)
+            compare_result(s["result"], s["data"], loaded, suffix=sfx, prefix="history")
+            return loaded
+
+        def pick_handle(step):
+            return handles[-1 - step["h"] % len(handles)]
+
+        def pick_slot(step):
+            if "slot_id" in step:
+                return step["slot_id"]
+            live = sorted(slots)
+            return live[step["slot"] % len(live)] if live else None
+
+        def run_step(step):
+            nonlocal counter
+            op = step["op"]
+            if op == "save":
+                h = pick_handle(step)
+                result = h["result"]
+                opts = dict(step["options"])
+                if step.get("keep_format", False) and h["origin"] == "reloaded":
+                    opts["parameter_format"] = h["pformat"]
+                flt = opts["data_filter"]
+                if flt is not None and not all(set(flt) <= set(map(str, ds.data_vars)) for ds in result.data.values()):
+                    flt = opts["data_filter"] = None  # a loaded (filtered) result does not have these variables
+                overwrite = bool(step["overwrite"] and slots)
+                counter += 1
+                if overwrite:
+                    slot = pick_slot(step)
+                    folder = slots[slot]["path"]
+                else:
+                    slot = counter
+                    folder = td / f"w{counter}" / "res"
+                target, kwargs = as_target(folder, step["target"], step["path_kind"])
+                if overwrite:
+                    kwargs = {**kwargs, "allow_overwrite": True}
+                sfx = ORIGIN_SUFFIX[h["origin"]]
+                with expect_ok("history.save" + sfx):
+                    paths = save_result(result, target, saving_options=SavingOptions(**opts), **kwargs)
+                for p in paths:
+                    check((Path(p) if Path(p).is_absolute() else Path(os.getcwd()) / p).is_file(), "history.save_paths", lambda: f"save_result reports {p!r} which does not exist")
+                slots[slot] = {
+                    "path": folder,
+                    "result": result,
+                    "data": {lbl: (ds if flt is None else ds[flt]) for lbl, ds in result.data.items()},
+                    "kind": step["path_kind"],
+                    "sfx": sfx,
+                    "pformat": opts["parameter_format"],
+                }
+                decide(slot, "", step["target"])
+                tags.update({f"save-{h['origin']}", "overwrite" if overwrite else "new-folder", f"params-{opts['parameter_format']}", f"filter-{'none' if flt is None else '+'.join(flt)}"})
+            elif op == "load":
+                if not slots:
+                    return
+                slot = pick_slot(step)
+                loaded = decide(slot, "_later", step["target"])
+                handles.append({"result": loaded, "origin": "reloaded", "pformat": slots[slot]["pformat"]})
+                tags.add("load")
+            elif op == "continue":
+                h = pick_handle(step)
+                try:
+                    nxt = run(replace(h["result"].get_scheme(), maximum_number_function_evaluations=step["nfev"]))
+                except Exception:  # noqa: BLE001  (whether a run can be continued is not a C17 matter)
+                    tags.add("continue-failed")
+                    return
+                handles.append({"result": nxt, "origin": "continued"})
+                has_err = any(np.isfinite(p.standard_error) for p in nxt.initial_parameters.all())
+                tags.add(f"continue-{h['origin']}" + ("-stderr" if has_err else ""))
+            elif op == "move":
+                if not slots:
+                    return
+                s = slots[pick_slot(step)]
+                leave(s["path"])
+                counter += 1
+                new = td.joinpath(f"m{counter}", *["a b", "c"][: step["depth"]], f"res_{counter}")
+                new.parent.mkdir(parents=True)
+                shutil.move(str(s["path"]), str(new))
+                s["path"] = new
+                tags.add("move")
+            elif op == "remove":
+                if not slots:
+                    return
+                s = slots.pop(pick_slot(step))
+                leave(s["path"])
+                shutil.rmtree(s["path"])
+                tags.add("remove")
+            elif op == "chdir":
+                where = [td, td / "cwd1", td / "cwd1" / "deep"][step["where"]]
+                where.mkdir(parents=True, exist_ok=True)
+                os.chdir(where)
+                tags.add("chdir")
+
+        for step in case["steps"]:
+            run_step(step)
+
+        # closing rule: what is in a surviving folder can be loaded and archived to a new folder (at most two, for the cost)
+        for slot in sorted(slots)[:2]:
+            run_step({"op": "load", "slot_id": slot, "target": "abs"})
+            run_step({"op": "save", "h": 0, "overwrite": False, "keep_format": True, "target": "abs", "path_kind": "file",
+                      "options": {"data_filter": None, "data_format": "nc", "parameter_format": slots[slot]["pformat"], "report": False}})
+
+        # every folder that is still alive: moved into an otherwise empty tree, everything else removed
+        os.chdir(td)
+        final = td / "final"
+        final.mkdir()
+        for slot, s in slots.items():
+            shutil.move(str(s["path"]), str(final / f"s{slot}"))
+            s["path"] = final / f"s{slot}"
+        for entry in td.iterdir():
+            if entry != final:
+                shutil.rmtree(entry)
+        os.chdir(final)
+        for slot in sorted(slots):
+            decide(slot, "_moved", "rel")
+        n_live = len(slots)
+    tags.add(f"live-{n_live}")
+    return {"nontrivial": bool(tags & {"save-continued", "save-reloaded"}), "tags": sorted(tags)}
 
 
 # ------------------------------------------------------------------------------------------------
@@ -755,13 +993,17 @@ PROPERTY = Property(
         "equal-area penalties, weights, 1-3 dataset groups, nested / flat / purely numeric parameter labels, four compartment-label pools) with seeded data; "
         "non-trivial = has an interval item (every model has a tuple-keyed K-matrix and unset optionals). result: enumeration of SavingOptions "
         "(4 data filters x csv/tsv x report) x absolute/relative x file/folder target over 6 kinds of small optimisations (verif-table / decay, 1-2 datasets, "
-        "no / dataset / model weights, VP/NNLS, linked or not, empty or non-empty optimisation history, previously saved elsewhere or not), loaded in place and after "
-        "shutil.move + chdir; non-trivial = 2 datasets with weights. netcdf: 1-3 dimensional float64 data with arbitrary finite coordinates and NaN/inf/-0/subnormal/"
+        "no / dataset / model weights, VP/NNLS, linked or not, empty or non-empty optimisation history, previously saved elsewhere or not, initial parameters with or without standard errors), loaded in place and after "
+        "shutil.move + chdir; non-trivial = 2 datasets with weights. history: Hypothesis over step lists (5-9 steps of save to a new folder or over an earlier save with any "
+        "SavingOptions / target form, load, continue the run of any handle with get_scheme(), move, remove, chdir; handles and folders addressed relative to what exists) "
+        "on the 6 kinds of optimisations, closed by load + archive of up to two surviving folders and a move of all survivors into an otherwise empty tree; every save and "
+        "load is decided by the result-folder oracle against the in-memory result that was saved; non-trivial = a loaded or a continued result was saved. netcdf: 1-3 dimensional float64 data with arbitrary finite coordinates and NaN/inf/-0/subnormal/"
         "extreme values; non-trivial = non-square. ascii: time-/wavelength-explicit, 1..12 x 1..12, both dimension orders of the input; non-trivial = non-square."
     ),
     subs=[
         Sub("model", prop=prop_model, strategy=model_cases, budget={"quick": 300, "thorough": 30000}),
         Sub("result", prop=prop_result, enumerate=result_cases, exhaustive=False),
+        Sub("history", prop=prop_history, strategy=history_cases, budget={"quick": 96, "thorough": 6000}),
         Sub("netcdf", prop=prop_netcdf, strategy=netcdf_cases, budget={"quick": 300, "thorough": 30000}),
         Sub("ascii", prop=prop_ascii, strategy=ascii_cases, budget={"quick": 300, "thorough": 30000}),
     ],
@@ -771,6 +1013,9 @@ PROPERTY = Property(
         "tolerances: objective of the reloaded model 1e-12 relative (cost, residual max-norm, penalties); csv/tsv parameters, histories and the ASCII explicit axis 1e-12 relative "
         "(full repr written; pandas' default C float parser keeps 17 digits including leading zeros: |abs err| < 1e-16 for |x| in [1e-4, 1)); yml statistics exact; netCDF bit-equal; ASCII values and secondary axis 1e-10 relative ('%.10e')",
         "SavingOptions.data_format is 'nc' (its declared Literal); parameter_format csv and tsv",
+        "history: whether a run can be continued from a handle is not a C17 matter (failed continue steps are skipped); a data filter naming variables that a loaded "
+        "(filtered) result does not have is replaced by no filter; overwriting an earlier save passes allow_overwrite=True and leaves the report clause open (result.md of "
+        "the earlier save may remain); a loaded result is re-saved with the parameter format it was loaded from (finding D18e, see HIST_REFORMAT_RELOADED)",
     ],
     selfcheck=selfcheck,
 )
